@@ -212,6 +212,9 @@ func (c *Ctx) moduleFn(f *ssa.Function) bool {
 		return false
 	}
 	top := EnclosingTop(f)
+	if top.Pkg == nil && top.Origin() != nil {
+		top = top.Origin() // an instance of a generic function of the module
+	}
 	return top.Pkg != nil && c.P.InModule(top.Pkg.Pkg.Path())
 }
 
